@@ -519,6 +519,36 @@ def translations():
     def const_prev(n):
         return (_garr(_np.array([_np.eye(3)] * n)), _garr(_np.full(n, 1.0 / n)))
 
+    def mk_mineral_hist(n, prev_o, prev_f, ords=None):
+        """A mineral whose history is [decoy, (prev_o, prev_f)]: the DECOY is an older snapshot of constants
+        (orientations 1/2, fractions 1/4) -- code that reads `orientations[0]` / `fractions[0]` where it must read
+        the LAST snapshot then produces those constants and an instance lemma breaks (with a one-snapshot mineral
+        [0] and [-1] are the same object; mutation m7 of round 5 went through the tie that way).  `ords`: symbolic
+        (regime, phase, fabric) ordinals stored on the mineral, so that a branch of the DRIVER on them forks
+        (seeded change C07d: LSODA bypassed in the viscosity-bound regimes)."""
+        m = mk_mineral(n, prev_o, prev_f)
+        decoy = (_garr(_np.full((n, 3, 3), 0.5)), _garr(_np.full(n, 0.25)))
+        m.orientations.insert(0, decoy[0])
+        m.fractions.insert(0, decoy[1])
+        if ords is not None:
+            m.regime, m.phase, m.fabric = ords
+        return m, decoy
+
+    def check_hist(m, decoy, prev_o, prev_f, grown, ords=None):
+        want = 2 + (1 if grown else 0)
+        if len(m.orientations) != want or len(m.fractions) != want:
+            raise TranslatorUnsupported("update_orientations does not append exactly one snapshot" if grown
+                                        else "the stored history changed although nothing was to be stored")
+        if m.orientations[0] is not decoy[0] or m.fractions[0] is not decoy[1] \
+                or m.orientations[1] is not prev_o or m.fractions[1] is not prev_f:
+            raise TranslatorUnsupported("update_orientations replaces / reorders earlier snapshots")
+        for a, v in ((decoy[0], 0.5), (decoy[1], 0.25)):
+            if any((not isinstance(x, Node)) or (not x.is_const) or cval(x) != v for x in a.reshape(-1)):
+                raise TranslatorUnsupported("an earlier snapshot was written into")
+        if ords is not None and (m.regime is not ords[0] or m.phase is not ords[1] or m.fabric is not ords[2]):
+            raise TranslatorUnsupported("the update rebinds the mineral's regime / phase / fabric although no "
+                                        "get_regime callable was given")
+
     # ================= extract_vars / apply_gbs =================
     def mk_extract_vars(n):
         def extract_vars_n(y):
@@ -595,7 +625,7 @@ def translations():
         def update_n(chi, prev, y):
             prev_o = prev.view(GArr)
             _, prev_f = const_prev(n)
-            m = mk_mineral(n, prev_o, prev_f)
+            m, decoy = mk_mineral_hist(n, prev_o, prev_f)
             params = {"phase_assemblage": (core.MineralPhase.olivine,), "phase_fractions": [CONST(1)],
                       "stress_exponent": CONST(1), "deformation_exponent": CONST(1),
                       "nucleation_efficiency": CONST(1), "gbm_mobility": CONST(1),
@@ -623,10 +653,7 @@ def translations():
                 pm.__dict__["LSODA"] = saved
             if len(made) != 1 or made[0].nsteps != 1:
                 raise TranslatorUnsupported("update_orientations: not exactly one solver / one step")
-            if len(m.orientations) != 2 or len(m.fractions) != 2:
-                raise TranslatorUnsupported("update_orientations does not append exactly one snapshot")
-            if m.orientations[0] is not prev_o or m.fractions[0] is not prev_f:
-                raise TranslatorUnsupported("update_orientations replaces the earlier snapshot")
+            check_hist(m, decoy, prev_o, prev_f, grown=True)
             return F_ret, m.orientations[-1], m.fractions[-1]
         return update_n
 
@@ -667,8 +694,9 @@ def translations():
 
     # ---- LSODA's constructor arguments: (t0, y0, t_bound, atol, rtol, first_step)
     def mk_lsoda_args(n):
-        def lsoda_args_n(Fd, prev_o, prev_f, t0, t1):
-            m = mk_mineral(n, prev_o.view(GArr), prev_f.view(GArr))
+        def lsoda_args_n(regime, phase, fabric, Fd, prev_o, prev_f, t0, t1):
+            po, pf, ords = prev_o.view(GArr), prev_f.view(GArr), (regime, phase, fabric)
+            m, decoy = mk_mineral_hist(n, po, pf, ords)
             cap = {}
 
             class _ArgsLSODA:
@@ -685,8 +713,7 @@ def translations():
                 raise TranslatorUnsupported("update_orientations did not construct LSODA")
             a, kw = cap["a"], cap["kw"]
             check_ctor(a, kw, t0, t1)
-            if len(m.orientations) != 1 or len(m.fractions) != 1:
-                raise TranslatorUnsupported("snapshot appended before integration")
+            check_hist(m, decoy, po, pf, grown=False, ords=ords)
             return a[1], a[2], a[3], kw["atol"], kw["rtol"], kw["first_step"]
         return lsoda_args_n
 
@@ -694,7 +721,7 @@ def translations():
     #      (here max_step, min_step) is handed to LSODA unchanged
     def mk_lsoda_args_user(n):
         def lsoda_args_user_n(Fd, prev_o, prev_f, t0, t1, uatol, urtol, ufirst, umax, umin):
-            m = mk_mineral(n, prev_o.view(GArr), prev_f.view(GArr))
+            m, _decoy = mk_mineral_hist(n, prev_o.view(GArr), prev_f.view(GArr))
             cap = {}
 
             class _ArgsLSODA:
@@ -723,10 +750,11 @@ def translations():
     #         otherwise  : every step returns None
     #      On IterationError the adapter verifies that the stored history is untouched.
     def mk_update_loop(n, msteps):
-        def update_loop_n(fail, chi, prev, *ys):
+        def update_loop_n(fail, regime, phase, fabric, chi, prev, *ys):
             prev_o = prev.view(GArr)
             _, prev_f = const_prev(n)
-            m = mk_mineral(n, prev_o, prev_f)
+            ords = (regime, phase, fabric)
+            m, decoy = mk_mineral_hist(n, prev_o, prev_f, ords)
             vecs = [y.copy().view(GArr) for y in ys]
             made = []
 
@@ -755,18 +783,16 @@ def translations():
                 F_ret = with_lsoda(_LoopLSODA, lambda: m.update_orientations(
                     plain_params(chi), _garr(_np.eye(3)), zero_L, (0.0, 1.0, lambda t: None)))
             except pm._err.IterationError:
-                if len(m.orientations) != 1 or len(m.fractions) != 1 \
-                        or m.orientations[0] is not prev_o or m.fractions[0] is not prev_f:
+                try:
+                    check_hist(m, decoy, prev_o, prev_f, grown=False, ords=ords)
+                except TranslatorUnsupported:
                     raise TranslatorUnsupported("a failed update changed the stored history")
                 if len(made) != 1 or made[0].status != "failed":
                     raise TranslatorUnsupported("IterationError without a failed solver step")
                 raise _IterationFailed()
             if len(made) != 1 or made[0].nsteps != msteps:
                 raise TranslatorUnsupported("update_orientations: not exactly one solver / all its steps")
-            if len(m.orientations) != 2 or len(m.fractions) != 2:
-                raise TranslatorUnsupported("update_orientations does not append exactly one snapshot")
-            if m.orientations[0] is not prev_o or m.fractions[0] is not prev_f:
-                raise TranslatorUnsupported("update_orientations replaces the earlier snapshot")
+            check_hist(m, decoy, prev_o, prev_f, grown=True, ords=ords)
             return F_ret, m.orientations[-1], m.fractions[-1]
         return update_loop_n
 
@@ -846,10 +872,13 @@ def translations():
     #      fail == j: the integrator of mineral j fails -> the exception leaves update_all; the adapter
     #      verifies that minerals before j were updated and minerals from j on are untouched.
     def mk_update_all(n, K):
-        def update_all_n(fail, chi, Fd, *rest):
+        def update_all_n(fail, regime, phase, fabric, chi, Fd, *rest):
             prevs = [(rest[2 * i].view(GArr), rest[2 * i + 1].view(GArr)) for i in range(K)]
             vecs = [rest[2 * K + i].copy().view(GArr) for i in range(K)]
-            ms = [mk_mineral(n, o, f) for o, f in prevs]
+            ords = (regime, phase, fabric)
+            built = [mk_mineral_hist(n, o, f, ords) for o, f in prevs]
+            ms = [b[0] for b in built]
+            decoys = [b[1] for b in built]
             Fg = Fd.view(GArr)
             F_before = list(Fg.reshape(-1))
             made = []
@@ -882,8 +911,9 @@ def translations():
             except pm._err.IterationError:
                 j = len(made)           # the failing one is the last that was built
                 for i, mm in enumerate(ms):
-                    want = 2 if i < j - 1 else 1
-                    if len(mm.orientations) != want or len(mm.fractions) != want:
+                    try:
+                        check_hist(mm, decoys[i], prevs[i][0], prevs[i][1], grown=(i < j - 1), ords=ords)
+                    except TranslatorUnsupported:
                         raise TranslatorUnsupported("update_all after a failure: minerals before the failing one "
                                                     "must be updated, the failing one and later ones untouched")
                 raise _IterationFailed()
@@ -895,9 +925,7 @@ def translations():
                 raise TranslatorUnsupported("update_all writes into the caller's deformation gradient")
             out = [F_ret]
             for i, mm in enumerate(ms):
-                if len(mm.orientations) != 2 or len(mm.fractions) != 2 \
-                        or mm.orientations[0] is not prevs[i][0] or mm.fractions[0] is not prevs[i][1]:
-                    raise TranslatorUnsupported("update_all does not append exactly one snapshot per mineral")
+                check_hist(mm, decoys[i], prevs[i][0], prevs[i][1], grown=True, ords=ords)
                 out += [made[i].y0, mm.orientations[-1], mm.fractions[-1]]
             return tuple(out)
         return update_all_n
@@ -997,21 +1025,22 @@ def translations():
                  f"k_update_n{n}")
         names.append(f"update_n{n}")
     # ---- the driver around the integrator
+    ORDS = [("regime", "enum", None), ("phase", "enum", None), ("fabric", "enum", None)]
     for n in N_GRAINS:
         ny = 9 + 10 * n
         register(f"lsoda_args_n{n}", mk_lsoda_args(n),
-                 [("Fd", "arr", (3, 3)), ("prev_o", "arr", (n, 3, 3)), ("prev_f", "arr", (n,)),
-                  ("t0", S, None), ("t1", S, None)], f"k_lsoda_args_n{n}")
+                 ORDS + [("Fd", "arr", (3, 3)), ("prev_o", "arr", (n, 3, 3)), ("prev_f", "arr", (n,)),
+                         ("t0", S, None), ("t1", S, None)], f"k_lsoda_args_n{n}")
         names.append(f"lsoda_args_n{n}")
         for msteps in LOOP_STEPS[n]:
             register(f"update_loop_n{n}_m{msteps}", mk_update_loop(n, msteps),
-                     [("fail", "enum", None), ("chi", S, None), ("prev", "arr", (n, 3, 3))]
+                     [("fail", "enum", None)] + ORDS + [("chi", S, None), ("prev", "arr", (n, 3, 3))]
                      + [(f"y{j + 1}", "arr", (ny,)) for j in range(msteps)],
                      f"k_update_loop_n{n}_m{msteps}")
             names.append(f"update_loop_n{n}_m{msteps}")
         for K in BULK_SIZES[n]:
             register(f"update_all_n{n}_k{K}", mk_update_all(n, K),
-                     [("fail", "enum", None), ("chi", S, None), ("Fd", "arr", (3, 3))]
+                     [("fail", "enum", None)] + ORDS + [("chi", S, None), ("Fd", "arr", (3, 3))]
                      + [x for i in range(K) for x in ((f"o{i + 1}", "arr", (n, 3, 3)), (f"f{i + 1}", "arr", (n,)))]
                      + [(f"y{i + 1}", "arr", (ny,)) for i in range(K)],
                      f"k_update_all_n{n}_k{K}")
